@@ -12,6 +12,7 @@ package main
 
 import (
 	"bytes"
+	"database/sql"
 	"encoding/binary"
 	"encoding/json"
 	"flag"
@@ -30,7 +31,6 @@ import (
 	"github.com/coredhcp/coredhcp/config"
 	"github.com/coredhcp/coredhcp/handler"
 	"github.com/coredhcp/coredhcp/plugins"
-	"github.com/coredhcp/coredhcp/server"
 	pl_autoconfigure "github.com/coredhcp/coredhcp/plugins/autoconfigure"
 	pl_dns "github.com/coredhcp/coredhcp/plugins/dns"
 	pl_file "github.com/coredhcp/coredhcp/plugins/file"
@@ -46,6 +46,7 @@ import (
 	pl_serverid "github.com/coredhcp/coredhcp/plugins/serverid"
 	pl_sleep "github.com/coredhcp/coredhcp/plugins/sleep"
 	pl_staticroute "github.com/coredhcp/coredhcp/plugins/staticroute"
+	"github.com/coredhcp/coredhcp/server"
 	"github.com/insomniacslk/dhcp/dhcpv4"
 	"github.com/insomniacslk/dhcp/dhcpv6"
 	"github.com/insomniacslk/dhcp/rfc1035label"
@@ -1137,6 +1138,28 @@ func runPlugins(args []string) error {
 				vecs = append(vecs, []string{filepath.Join(*dir, fmt.Sprintf("range-%d.sqlite", len(vecs))), rg[0], rg[1], lt})
 			}
 		}
+		// lease databases the range plugin must refuse (or survive): a row with an IPv6 address, a row with a malformed
+		// hardware address, a table of the older schema (no hostname column), a file that is not a database
+		for i, mk := range []func(string){
+			func(f string) {
+				mkLeaseDB(f, "insert into leases4 values ('aa:bb:cc:dd:ee:ff', '2001:db8::1', 4102444800, 'h')")
+			},
+			func(f string) { mkLeaseDB(f, "insert into leases4 values ('zz:zz', '10.0.0.201', 4102444800, 'h')") },
+			func(f string) {
+				mkRawDB(f, "create table leases4 (mac string not null, ip string not null, expiry int, primary key (mac, ip))",
+					"insert into leases4 values ('aa:bb:cc:dd:ee:ff', '10.0.0.201', 4102444800)", "alter table leases4 add column hostname string")
+			},
+			func(f string) {
+				os.WriteFile(f, []byte("this is not an sqlite database, it only has the name of one\n"), 0o644)
+			},
+			func(f string) {
+				mkLeaseDB(f, "insert into leases4 values ('aa:bb:cc:dd:ee:ff', '10.0.0.201', 4102444800, 'h')")
+			}, // a good one
+		} {
+			f := filepath.Join(*dir, fmt.Sprintf("odd-%d.sqlite", i))
+			mk(f)
+			vecs = append(vecs, []string{f, "10.0.0.200", "10.0.0.202", "30s"})
+		}
 		if *arity >= 3 {
 			r := rand.New(rand.NewSource(*seed))
 			for i := 0; i < 4000; i++ {
@@ -1226,6 +1249,22 @@ func runPlugins(args []string) error {
 	}
 	wg.Wait()
 	return nil
+}
+
+func mkRawDB(file string, stmts ...string) {
+	os.Remove(file)
+	db, err := sql.Open("sqlite3", "file:"+file)
+	if err != nil {
+		return
+	}
+	defer db.Close()
+	for _, st := range stmts {
+		db.Exec(st)
+	}
+}
+
+func mkLeaseDB(file string, stmts ...string) {
+	mkRawDB(file, append([]string{"create table if not exists leases4 (mac string not null, ip string not null, expiry int, hostname string not null, primary key (mac, ip))"}, stmts...)...)
 }
 
 func lastLines(s string, n int) string {
